@@ -873,7 +873,8 @@ func c09XmlRun(c *Ctx, st *h.Stage, cases []*c09XmlCase) error {
 			"spec.c09.xml.cmp "+h.Bool(cs.cfg.keep)+" "+h.Hex(cs.in)+" "+h.Hex(cs.out),
 			"spec.c09.xml.contract "+c06Groups(cs.lexIn),
 			"spec.c09.xml.agree "+h.Hex(cs.out)+" "+c06Groups(c06Lex(cs.out)),
-			"spec.c09.xml.tokens "+h.Hex(cs.out2))
+			"spec.c09.xml.tokens "+h.Hex(cs.out2),
+			"model.c09.xml.pass "+h.Bool(cs.cfg.keep)+" "+h.Hex(cs.in))
 		live = append(live, cs)
 	}
 	replies, err := h.Eval(lines)
@@ -977,6 +978,21 @@ func c09XmlRun(c *Ctx, st *h.Stage, cases []*c09XmlCase) error {
 		}
 		if !out2OK {
 			report("the output of the second pass is not accepted by the independent tokeniser", h.Q(trunc(cs.out2, 300)))
+		}
+		// bytes-level tie of `xml_accepted_in_accepted_out`: where the real lexer keeps its contract and the document has no
+		// PI (whose data the real lexer splits into items and rewrites), the model on the tokeniser's tokens predicts the bytes
+		if !cs.cfg.svg && len(contract) == 0 && !bytes.Contains(cs.in, []byte("<?")) {
+			pb, good, msg := h.DecodeReply(replies[cs.line0+6])
+			if !good {
+				return fmt.Errorf("c09 xml: pass: %s", msg)
+			}
+			items := h.DecodeListReply(pb)
+			if len(items) == 2 && string(items[0]) == "1" {
+				st.Tag("bytes-model=compared")
+				if !bytes.Equal(items[1], cs.out) {
+					c.R.Add(h.Finding{Stage: st.Name, Kind: "diff", What: "model of xml.Minify on the tokens of the independent tokeniser vs xml.Minify bytes", Input: h.Q(trunc(cs.in, 400)), Hex: h.Hex(trunc(cs.in, 200000)), Config: cs.cfg.name, Impl: h.Q(trunc(cs.out, 400)), Model: h.Q(trunc(items[1], 400))})
+				}
+			}
 		}
 	}
 	return nil
@@ -1154,7 +1170,7 @@ func c09XmlStages(c *Ctx) error {
 	st = c.R.StartStage("c09-xml-big", "big documents: pieces of /repo/tests/{xml,svg}/corpus and _benchmarks/*.{xml,svg} (prolog removed) concatenated under one root with generated hazard fragments in between, plus every corpus document as it is; same judgement; non-trivial = output differs from input")
 	cases = nil
 	maxPiece := c.N(80000, 600000)
-	target := c.N(60000, 400000)
+	target := c.N(60000, 300000)
 	xp := c09XmlCorpus(c.Repo, "xml", "xml", maxPiece)
 	sp := c09XmlCorpus(c.Repo, "svg", "svg", maxPiece)
 	for _, d := range xp {
@@ -1163,7 +1179,7 @@ func c09XmlStages(c *Ctx) error {
 	for _, d := range sp {
 		cases = append(cases, &c09XmlCase{hazard: "corpus", in: d, cfg: svgCfgs[0]})
 	}
-	for k := 0; k < c.N(3, 24); k++ {
+	for k := 0; k < c.N(3, 16); k++ {
 		r := c.Rng.Fork()
 		cases = append(cases, &c09XmlCase{hazard: "big", in: c09XmlBig(r, xp, false, target), cfg: xmlCfgs[r.Intn(len(xmlCfgs))]})
 		cases = append(cases, &c09XmlCase{hazard: "big", in: c09XmlBig(r, sp, true, target), cfg: svgCfgs[r.Intn(len(svgCfgs))]})
